@@ -179,7 +179,11 @@ func (t *Collection) ExistAny(key interface{}) bool {
 // Exist returns true if the key exists in the collection
 func (t *Collection) Exist(key []byte) bool {
 	val, _ := t.GetItem(key, false)
-	return val != nil
+	if val == nil {
+		return false
+	}
+	t.store.ItemDecRef(t, val)
+	return true
 }
 
 // SetItem in a collection
@@ -494,6 +498,10 @@ func (t *Collection) VisitItemsRandom(
 	if err != nil {
 		return err
 	}
+	if si == nil {
+		return nil
+	}
+	defer t.store.ItemDecRef(t, si)
 	err = t.VisitItemsAscendEx(si.Key, false, v)
 	if err != nil {
 		return err
@@ -567,6 +575,10 @@ func (t *Collection) VisitItemsAscendBlockEx(
 	if err != nil {
 		return err
 	}
+	if si == nil {
+		return nil
+	}
+	defer t.store.ItemDecRef(t, si)
 	err = t.VisitItemsAscendEx(si.Key, false, v)
 	if err != nil {
 		return err
@@ -637,6 +649,7 @@ func (t *Collection) Len() (l int64, err error) {
 	if si == nil {
 		return 0, nil // Empty collection.
 	}
+	defer t.store.ItemDecRef(t, si)
 	err = t.VisitItemsAscendEx(si.Key, false, visitor)
 	return
 }
